@@ -294,6 +294,9 @@ RunOps(M, F, t, k, i) ==
               ELSE RunOps([M3 EXCEPT !.tk[t].recvs = Append(@, oc.v)], F, t, k, i + 1)
       [] o.o = "dirty" ->
            RunOps(Ev([M EXCEPT !.reg = Upd(@, DedupKey(P, o.a), 0)], [e |-> "Dirty", t |-> t, a |-> o.a]), F, t, k, i + 1)
+      [] o.o = "set" ->
+           LET x == IF o.a < 100 THEN o.a ELSE P.nvars + (o.a - 100)
+           IN RunOps(Ev([M EXCEPT !.sv[x] = o.v], [e |-> "Set", t |-> t, a |-> o.a, b |-> o.v]), F, t, k, i + 1)
       [] o.o = "spawn" ->
            RunOps(IF M.tk[o.a].st = "absent" THEN CreateTask(M, o.a, t, TRUE) ELSE M, F, t, k, i + 1)
       [] o.o = "sync" ->
